@@ -590,6 +590,13 @@ func (s *Stream) CloseRead() {
 	}
 	discarded := s.in.end - s.in.start
 	s.in.discardBefore(s.in.end)
+	// The fast-path read buffer aliases the data just discarded.
+	// Drop it, so that a later Read does not discard its consumed
+	// bytes from the stream a second time.
+	s.inbufmu.Lock()
+	s.inbuf = nil
+	s.inbufoff = 0
+	s.inbufmu.Unlock()
 	s.inUnlock()
 	s.conn.handleStreamBytesReadOffLoop(discarded) // must be done with ingate unlocked
 }
@@ -850,6 +857,11 @@ func (s *Stream) handleReset(code uint64, finalSize int64) error {
 	}
 	s.conn.handleStreamBytesReadOnLoop(finalSize - s.in.start)
 	s.in.discardBefore(s.in.end)
+	// As in CloseRead, the fast-path read buffer aliases discarded data.
+	s.inbufmu.Lock()
+	s.inbuf = nil
+	s.inbufoff = 0
+	s.inbufmu.Unlock()
 	s.inresetcode = int64(code)
 	s.insize = finalSize
 	return nil
